@@ -27,6 +27,9 @@ type Case struct {
 	Class  string     `json:"class"`
 	P      [][3]int64 `json:"p"`
 	Stride int        `json:"stride,omitempty"`
+	// Extra (2-D functions only): 0 = coordinates of two ordinates; 1 = every
+	// coordinate carries its own third ordinate; 2 = coordinates of different lengths.
+	Extra int `json:"extra,omitempty"`
 }
 
 func pt(t *rapid.T, lim int64, label string) [3]int64 {
@@ -154,6 +157,15 @@ func genSegSeg(t *rapid.T, three bool) (string, [][3]int64) {
 }
 
 func genCase(t *rapid.T) Case {
+	c := genCase0(t)
+	switch c.Fn {
+	case "seg-seg2", "pt-seg2", "perp2", "pt-ls2":
+		c.Extra = rapid.SampledFrom([]int{0, 0, 1, 2}).Draw(t, "extra")
+	}
+	return c
+}
+
+func genCase0(t *rapid.T) Case {
 	fn := rapid.SampledFrom([]string{"seg-seg3", "seg-seg3", "seg-seg2", "seg-seg2", "pt-seg3", "pt-seg2", "pt-ls2", "perp2", "dist3"}).Draw(t, "fn")
 	switch fn {
 	case "seg-seg3":
@@ -227,6 +239,19 @@ func check(what string, got float64, d2 *big.Rat, tol float64, exactZero bool) e
 
 func prop(c Case) error {
 	P := c.P
+	// cc is point i as the coordinate handed to a 2-D function
+	cc := func(i int) geom.Coord {
+		out := c2(P[i])
+		switch c.Extra {
+		case 1:
+			out = append(out, float64(i)+0.25)
+		case 2:
+			for k := 0; k < (i+1)%3; k++ {
+				out = append(out, float64(10*i+k)+0.5)
+			}
+		}
+		return out
+	}
 	switch c.Fn {
 	case "dist3":
 		tol := 1e-9 * scaleOf(c, 3)
@@ -238,19 +263,19 @@ func prop(c Case) error {
 	case "pt-seg2":
 		tol := 1e-9 * scaleOf(c, 2)
 		d2 := exact.PointSegDist2(e2(P[0]), e2(P[1]), e2(P[2]))
-		if err := check("xy.DistanceFromPointToLine(p,a,b)", xy.DistanceFromPointToLine(c2(P[0]), c2(P[1]), c2(P[2])), d2, tol, true); err != nil {
+		if err := check("xy.DistanceFromPointToLine(p,a,b)", xy.DistanceFromPointToLine(cc(0), cc(1), cc(2)), d2, tol, true); err != nil {
 			return err
 		}
-		return check("xy.DistanceFromPointToLine(p,b,a)", xy.DistanceFromPointToLine(c2(P[0]), c2(P[2]), c2(P[1])), d2, tol, true)
+		return check("xy.DistanceFromPointToLine(p,b,a)", xy.DistanceFromPointToLine(cc(0), cc(2), cc(1)), d2, tol, true)
 	case "perp2":
 		tol := 1e-9 * scaleOf(c, 2)
 		a, b, p := e2(P[1]), e2(P[2]), e2(P[0])
 		cr := exact.Cross(a, b, p)
 		d2 := exact.Quo(exact.Mul(cr, cr), exact.Dist2(a, b))
-		if err := check("xy.PerpendicularDistanceFromPointToLine(p,a,b)", xy.PerpendicularDistanceFromPointToLine(c2(P[0]), c2(P[1]), c2(P[2])), d2, tol, true); err != nil {
+		if err := check("xy.PerpendicularDistanceFromPointToLine(p,a,b)", xy.PerpendicularDistanceFromPointToLine(cc(0), cc(1), cc(2)), d2, tol, true); err != nil {
 			return err
 		}
-		return check("xy.PerpendicularDistanceFromPointToLine(p,b,a)", xy.PerpendicularDistanceFromPointToLine(c2(P[0]), c2(P[2]), c2(P[1])), d2, tol, true)
+		return check("xy.PerpendicularDistanceFromPointToLine(p,b,a)", xy.PerpendicularDistanceFromPointToLine(cc(0), cc(2), cc(1)), d2, tol, true)
 	case "pt-seg3":
 		tol := 1e-9 * scaleOf(c, 3)
 		d2 := exact.PointSegDist2_3(e3(P[0]), e3(P[1]), e3(P[2]))
@@ -276,7 +301,7 @@ func prop(c Case) error {
 		for i := 2; i < len(P); i++ {
 			d2 = exact.MinRat(d2, exact.PointSegDist2(e2(P[0]), e2(P[i-1]), e2(P[i])))
 		}
-		if err := check("xy.DistanceFromPointToLineString", xy.DistanceFromPointToLineString(layout, c2(P[0]), line), d2, tol, true); err != nil {
+		if err := check("xy.DistanceFromPointToLineString", xy.DistanceFromPointToLineString(layout, cc(0), line), d2, tol, true); err != nil {
 			return err
 		}
 		// reversed polyline
@@ -284,12 +309,12 @@ func prop(c Case) error {
 		for i := len(line) - stride; i >= 0; i -= stride {
 			rev = append(rev, line[i:i+stride]...)
 		}
-		return check("xy.DistanceFromPointToLineString(reversed)", xy.DistanceFromPointToLineString(layout, c2(P[0]), rev), d2, tol, true)
+		return check("xy.DistanceFromPointToLineString(reversed)", xy.DistanceFromPointToLineString(layout, cc(0), rev), d2, tol, true)
 	case "seg-seg2":
 		tol := 1e-9 * scaleOf(c, 2)
 		d2 := exact.SegSegDist2(e2(P[0]), e2(P[1]), e2(P[2]), e2(P[3]))
 		for vi, idx := range variants {
-			got := xy.DistanceFromLineToLine(c2(P[idx[0]]), c2(P[idx[1]]), c2(P[idx[2]]), c2(P[idx[3]]))
+			got := xy.DistanceFromLineToLine(cc(idx[0]), cc(idx[1]), cc(idx[2]), cc(idx[3]))
 			if err := check(fmt.Sprintf("xy.DistanceFromLineToLine variant %d %v", vi, idx), got, d2, tol, true); err != nil {
 				return err
 			}
